@@ -273,18 +273,29 @@ def history_templates(tier):
 
 
 def build_history(eng, bounds, hspec):
-    sc = W.Scenario(eng, bounds, 'history: ' + hspec['name'])
-    c = hspec['cfg']
-    sc.make_cfg(ask_fee=c['cfg_ask_fee'], bid_fee=c['cfg_bid_fee'], n_appr=1, n_exec=1, n_conv=1, n_quote=1)
-    sc.set_attrs(0)
-    # every denomination is an ordinary coin in these histories (the mechanism is C10's subject)
+    """empty store; the first request of every history is a symbolic `instantiate` (coherent configurations inside the bounds)"""
+    from . import entry as EN
     from .harness import restricted
-    for t in [sc.cfgf('base_denom')] + sc.cfgf('convertible_base_denoms') + sc.cfgf('supported_quote_denoms'):
+    from .engine import f_dec_ok, f_dec_n, f_dec_d
+    c = hspec['cfg']
+    opt = tuple((n, c['cfg_ask_fee'] if n.startswith('ask') else c['cfg_bid_fee']) for n in ('ask_fee_rate', 'ask_fee_account', 'bid_fee_rate', 'bid_fee_account'))
+    sc, ireq = EN.build_instantiate(eng, bounds, dict(kind='Instantiate', opt=opt, n_appr=1, n_exec=1, n_quote=1, n_conv=1, n_attr=0))
+    sc.label = 'history: ' + hspec['name']
+    sc.set_attrs(0)
+    sc.assume.append(z3.Or(*[ireq['P'] == k for k in bounds.precisions]))
+    sc.assume.append(ireq['I'] < bounds.B)
+    for side in ('ask', 'bid'):
+        r = ireq[side + '_fee_rate']
+        if r is not None:
+            sc.assume.append(z3.Implies(f_dec_ok(r), z3.And(f_dec_n(r) >= 0, f_dec_n(r) <= f_dec_d(r))))
+            sc.assume.append(ireq[side + '_fee_account'] != W.CONTRACT)
+    # every denomination is an ordinary coin in these histories (the mechanism is C10's subject)
+    for t in [ireq['base_denom']] + ireq['conv'] + ireq['quotes']:
         sc.assume.append(z3.Not(restricted(t)))
-    return sc, {'kind': 'History', 'spec': hspec}
+    return sc, ireq
 
 
-def run_history(sc, hspec, max_paths=4000):
+def run_history(sc, hspec, ireq, max_paths=4000):
     """depth-first over accepting paths; yields (list of (req, funds, path)) for every complete accepted history"""
     steps = hspec['steps']
 
@@ -306,8 +317,12 @@ def run_history(sc, hspec, max_paths=4000):
                 continue
             yield from rec(i + 1, p.world, p.pc, trail + [(req, funds, p)])
     n = 0
-    for tr in rec(0, sc.world, list(sc.assume), []):
-        n += 1
-        if n > max_paths:
-            raise RuntimeError('history path budget exceeded')
-        yield tr
+    from . import entry as EN
+    for p0 in EN.run_instantiate(sc, ireq):
+        if p0.kind != 'ok':
+            continue
+        for tr in rec(0, p0.world, p0.pc, [(ireq, [], p0)]):
+            n += 1
+            if n > max_paths:
+                raise RuntimeError('history path budget exceeded')
+            yield tr
